@@ -43,8 +43,8 @@ theorem unhandled_gets_unimplemented (T : Tables) (hT : T.namesTotal = true) (s 
   obtain ⟨h1, h2, h3, h4, h5, h6⟩ := unhandled_parts hun
   obtain ⟨ha, he, hd, hq⟩ := hs
   have hseq : ¬ ((s.seqIn + 1) % SEQ_MOD = 0 ∧ ¬ s.initialKexDone = true) := by simp [hd]
-  simp only [step, ha, if_true, recv, hseq, if_false, h1, h2, h3, hq, ne_eq, not_true_eq_false,
-    dispatch, transportTable, authTable] at h4 h6 ⊢
+  simp only [step, ha, he, Option.isNone_none, and_self, if_true, recv, body, afterExpected, bump, hseq, if_false, h1, h2, h3, hq, ne_eq,
+    not_true_eq_false, dispatch, transportTable, authTable] at h4 h6 ⊢
   simp only [h4, h5, h6, Bool.false_eq_true, if_false, fallback, hT, not_true_eq_false, false_and]
   by_cases h3' : t = MSG_UNIMPLEMENTED
   · subst h3'; cases s; simp_all [replied]
@@ -163,8 +163,8 @@ theorem partial_lookup_kills_session (T : Tables) (hT : T.namesTotal = false) (s
   obtain ⟨h1, h2, h3, h4, h5, h6⟩ := unhandled_parts hun
   obtain ⟨ha, he, hd, hq⟩ := hs
   have hseq : ¬ ((s.seqIn + 1) % SEQ_MOD = 0 ∧ ¬ s.initialKexDone = true) := by simp [hd]
-  simp only [step, ha, if_true, recv, hseq, if_false, h1, h2, h3, hq, ne_eq, not_true_eq_false,
-    dispatch, transportTable, authTable] at h4 h6 ⊢
+  simp only [step, ha, he, Option.isNone_none, and_self, if_true, recv, body, afterExpected, bump, hseq, if_false, h1, h2, h3, hq, ne_eq,
+    not_true_eq_false, dispatch, transportTable, authTable] at h4 h6 ⊢
   simp only [h4, h5, h6, Bool.false_eq_true, if_false, fallback, hT, hname, not_false_eq_true, and_self,
     if_true, St.fail, and_true]
 
